@@ -878,3 +878,7 @@ mod tests {
         }
     }
 }
+
+#[cfg(all(test, feature = "pendulum_project_ntpd_rs_verif"))]
+#[path = "../../../verif/harness/ntp_proto/time_types.rs"]
+mod verif_time_types;
